@@ -258,6 +258,7 @@ func newEngine(ld *loaded, j *Job) *Engine {
 	eng.registerIntrinsics()
 	eng.registerConcIntrinsics()
 	eng.registerFmtIntrinsics()
+	eng.registerEncIntrinsics()
 	if j.FSModel {
 		eng.registerFSIntrinsics()
 		eng.registerVerifyIntrinsics()
